@@ -93,6 +93,14 @@ def run(tier):
     t0 = time.time()
     V = core.Verdict(PID)
     rnd = random.Random(core.seed())
+    # design level: the transcription of delta's alignment table, annotation and greedy pairing (Edits) obeys the laws
+    design = {}
+    for cfg in ["MC_Edits", "MC_Edits_multi"] + (["MC_Edits_multi_thorough"] if tier == "thorough" else []):
+        mc = tlc.run_tlc("MC_Edits", cfg=cfg, workers=8, coverage=False, heap="6g", timeout=3400)
+        tlc.require_ok(mc, cfg)
+        if mc.violated:
+            V.drift.append(f"module=Edits design-level {mc.violated} violated in {cfg}")
+        design[cfg] = mc.distinct
     S4 = strings("ab ", 4)
     pairs = [([a], [b]) for a in S4 for b in S4]
     plans = []     # (cases, thr, re)
@@ -217,8 +225,12 @@ def run(tier):
     chunks = [events[i::n] for i in range(n)]
     outs = core.pmap(lambda ch: tlc.validate_trace("Trace_Emph", ch, heap="4g"), chunks, jobs=n)
     failed = [f for fl, r in outs for f in fl]
+    drifts = [x for fl, r in outs for t, v in r.printed if t == "DRIFT" for x in (v if isinstance(v, list) else [])]
+    for d in drifts[:6]:
+        ms, ps, thr, re = meta[d]
+        V.drift.append(f"module=Edits pairing / emphasis predicted otherwise: removed {ms!r} added {ps!r} (max distance {thr}%, regex {re})")
     states = sum(r.distinct for fl, r in outs)
-    log(f"[{PID}] {len(events)} rendered subhunks judged by TLC (Trace_Emph), {len(failed)} rejected")
+    log(f"[{PID}] {len(events)} rendered subhunks judged by TLC (Trace_Emph), {len(failed)} rejected, {len(drifts)} differ from the Edits model")
     for f in failed:
         ms, ps, thr, re = meta[f["run"]]
         if (ms, ps) in ZW and thr == 0:
@@ -231,10 +243,14 @@ def run(tier):
                     {"minus": ms, "plus": ps, "thr": thr, "re": re, "event": events[f["run"]]})
     rc = V.finish()
     core.write_evidence(PID, tier, "model_checking", {
-        "states": states, "transitions": states,
+        "states": sum(design.values()), "transitions": sum(design.values()), "design_models": design, "monitor_states": states,
+        "drift_against_Edits": len(drifts),
         "traces_validated_against_impl": len(events), "evaluations": len(events),
         "distinct_nontrivial": len({json.dumps(m) for m in meta}),
-        "rule": "all ordered pairs of strings of length <= 4 over {a, b, space} as one-line subhunks (quick: exhaustive for the default "
+        "rule": "design level: Edits (tokenize, alignment table with delta's costs and tie-breaks, backtrack, run-length encoding, annotate "
+                "with the whitespace-joining rule and the distance, greedy pairing) obeys every law on all 1x1 subhunks over strings <= 3 "
+                "(3 regexes x 3 thresholds) and all subhunks up to 2x2 lines; the same model predicts pairing and per-character emphasis of "
+                "every rendered subhunk (drift); binary: all ordered pairs of strings of length <= 4 over {a, b, space} as one-line subhunks (quick: exhaustive for the default "
                 "regex and threshold, sampled for the other 5 combinations; thorough: exhaustive for 3 regexes x 3 thresholds, plus a "
                 "4-letter alphabet sample); subhunks up to 2x2 lines over strings of length <= 2 at thresholds 0, 0.6, 1.0 in unified "
                 "and side-by-side view; seeded long lines with repeated tokens, Unicode and whitespace-only edits",
